@@ -633,7 +633,13 @@ def rule_ctor_arg(model: Model, eng: Effects):
         a0 = call.args[0] if call.args else None
         kind = args[0].kind if args else "?"
         is_none = isinstance(a0, ast.Constant) and a0.value is None
-        if is_none or kind in ("L",):
+        shared = [r for r in (args[0].roots if args else ()) if len(r) >= 3 and r[0] == "P" and r[-1] == ".cores"]
+        if kind == "L" and shared:
+            obs.append(Ob("CTOR-ARG", k, VIOLATED, model.where(f, call), norm(call)[:100],
+                          f"{f.short} hands the core *list* of `{shared[0][1]}` itself to TT(...): the constructor stores the list it is given, so the new object "
+                          "and the operand share one list; a later set_core / reduce_dims on either replaces cores under the other, whose N / M / R / shape "
+                          "then no longer describe its cores (pass a copy of the list)"))
+        elif is_none or kind in ("L",):
             obs.append(Ob("CTOR-ARG", k, OK, model.where(f, call), norm(call)[:100], "core list" if not is_none else "None"))
         elif kind == "T":
             if f.short in DENSE_SITES:
